@@ -137,6 +137,11 @@ def binop(I, op, a, b, lineno=0, inplace=False):
         raise Unsupported(f'string operator {t.__name__}')
     if is_stringy(a) and t is ast.Mult and isinstance(b, int):
         return str_concat(I, [a] * b)
+    if isinstance(a, str) and len(a) == 1 and t is ast.Mult and is_sym_int(b):
+        # c * n: a run of max(n, 0) copies of one character
+        rep = I.fresh('repeat', z3.StringSort())
+        I.path.assume(z3.And(z3.InRe(rep, z3.Star(z3.Re(z3.StringVal(a)))), z3.Length(rep) == z3.If(b < 0, 0, b)))
+        return rep
     if isinstance(a, bytes) and t is ast.Mult and is_z3(b):
         from . import arrays
         return arrays.repeat_bytes(I, a, b)
@@ -294,6 +299,10 @@ def format_value(I, val, spec, conversion, lineno):
 def call_builtin_repr(I, val):
     if is_concrete(val):
         return repr(val)
+    if is_sym_str(val) or is_sym_int(val):
+        # only the fact that it is some string is modelled (error messages)
+        I.used_summaries.add('repr() of a symbolic value: an unspecified string')
+        return I.fresh('repr', z3.StringSort())
     raise Unsupported('repr of symbolic value')
 
 
